@@ -41,6 +41,7 @@ VALUES = [
     ['tuple', [['int', 1]]],
     ['str', 'some words that need splitting at narrow widths'],
     ['set', [['int', 3], ['int', 1], ['int', 2]]],
+    ['list', [['std', 'enum', 'Color', 'RED'], ['std', 'uuid', '0' * 32], ['sub', 'int', 'enum', ['int', 1]], ['cmt', 'note', ['float', 'nan']]]],
 ]
 SGR = re.compile(r'\x1b\[[0-9;]*m')
 _setup = {}
